@@ -701,6 +701,9 @@ inst!(deallocate_up4_nodealloc, ob_deallocate, LogAlloc, SUp4NoDe, 1, 128);
 inst!(bump_alloc_up1_k2, unwind 4, ob_bump_alloc, LogAlloc, SUp1, 2, 64, 200, true);
 inst!(bump_alloc_dn8_k2, unwind 4, ob_bump_alloc_nogrow, LogAlloc<u64>, SDn8, 2, 64, 200);
 inst!(bump_alloc_up8_k3, unwind 5, ob_bump_alloc, LogAlloc, SUp8, 3, 64, 120, false);
+// one small chunk whose header is a large part of it: the growth rule (twice the SIZE, not the capacity) is visible
+inst!(bump_alloc_up1_k1, unwind 4, ob_bump_alloc, LogAlloc, SUp1, 1, 64, 40, true);
+inst!(bump_alloc_up8_u64_k1, unwind 4, ob_bump_alloc, LogAlloc<u64>, SUp8, 1, 64, 40, false);
 
 inst!(reset_up1_k3, unwind 5, ob_reset, LogAlloc, SUp1, 3, 64);
 inst!(reset_dn8_k2, unwind 4, ob_reset, LogAlloc<Align32>, SDn8, 2, 64);
@@ -784,9 +787,40 @@ where
     kani::cover!(r.is_some(), "alloc-ok");
 }
 
+/// `append_for` (the slow path of every allocation, and `reserve`) with an over-granting base allocator (power-of-two size regime only: page-sized chunks exhaust CBMC's memory, and
+/// Kani rejects blocks that are only partly backed by memory): the appended chunk can hold the layout that caused it, its size is a
+/// multiple of 16 and it is at least twice the previous chunk less 16 bytes (C12 growth rule: twice the SIZE - not the
+/// capacity - of the previous chunk).
+pub(crate) fn ob_append_growth<A, S>(hint: usize, over: usize, max_size: usize)
+where
+    A: crate::BaseAllocator<S::GuaranteedAllocated> + Default,
+    S: BumpAllocatorSettings,
+{
+    let mut a = Arena::<A, S>::build_over(1, hint, over);
+    unsafe { OVERGRANT = over };
+    let layout = any_layout(max_size, 4);
+    let g0 = a.geo(0);
+    let r = a.chunk(0).append_for::<AllocError>(layout);
+    match r {
+        Ok(c1) => {
+            let g1 = geo::<A, S>(unsafe { GRANTS[1] });
+            kani::assert(g1.size % 16 == 0, "C12.append.size_multiple_of_16");
+            kani::assert(g1.size + 16 >= 2 * g0.size, "C12.append.new_chunk_at_least_twice_the_previous_less_16");
+            kani::assert(c1.alloc(CustomLayout(layout)).is_some(), "C12.append.causing_layout_fits");
+            kani::assert(snap(a.chunk(0).header()).next == g1.header && snap(c1.header()).prev == g0.header, "C10.append.linked_both_ways");
+        }
+        Err(_) => kani::assert(false, "C07.append.not_refused_succeeds"),
+    }
+    unsafe { OVERGRANT = 0 };
+    unsafe { a.bump.manually_drop() };
+    kani::assert(live_grants() == 0, "C05.append.every_chunk_returned_once");
+    kani::cover!(r.is_ok(), "appended");
+}
+
 matrix!(
     overgrant_up1: ob_overgrant, LogAlloc, 1, true, true, (2, 64, 24);
     overgrant_dn8: ob_overgrant, LogAlloc<u64>, 8, false, true, (2, 64, 24);
     overgrant_dn1_align32: ob_overgrant, LogAlloc<Align32>, 1, false, true, (2, 64, 40);
-    overgrant_up16_k3: ob_overgrant, LogAlloc, 16, true, true, (3, 64, 8)
+    overgrant_up16_k3: ob_overgrant, LogAlloc, 16, true, true, (3, 64, 8);
+    append_growth_up1_small: ob_append_growth, LogAlloc, 1, true, true, (64, 24, 40)
 );
